@@ -86,7 +86,8 @@ func round(n float64) float64 {
 		return math.Trunc(n + 0.5)
 	}
 	if n <= -0.5 {
-		return math.Trunc(n - 0.5)
+		// halves round towards +Infinity as in ECMAScript: round(-2.5) = -2, round(-0.5) = -0
+		return math.Floor(n + 0.5)
 	}
 	if math.IsNaN(n) {
 		return math.NaN()
